@@ -3,7 +3,7 @@ import os
 import subprocess
 
 ROOT = os.path.dirname(os.path.dirname(os.path.abspath(__file__)))
-BIN = os.path.join(ROOT, "lean", ".lake", "build", "bin")
+BIN = os.environ.get("VERIF_LEAN_BIN") or os.path.join(ROOT, "lean", ".lake", "build", "bin")
 
 
 def driver(name):
